@@ -1,4 +1,5 @@
 import BoxoModel.C42.Lemmas
+import BoxoModel.Props.C25
 /-!
 # C42 — Delegated routing HTTP applies filters and limits exactly
 
@@ -6,34 +7,34 @@ Property theorems only. Model: `BoxoModel/C42/Model.lean` (loops of routing/http
 pipelines as C43 iterator shapes). Reference semantics (`protoKeep`, `addrKeep`, `specAddrs`, `specApply`,
 `specServe`) and helpers: `BoxoModel/C42/Lemmas.lean`.
 All statements hold for every record list (any length, error results included), every filter list, every
-limit (≤ 0 included), every `codeOf` (the protocol-name table of go-multiaddr) and arbitrary address
+limit (≤ 0 included), every `E` (the protocol-name table of go-multiaddr) and arbitrary address
 protocol codes.
 -/
 namespace C42
 
 /-- The filter code (two loops of applyAddrFilter, containsAny/containsProtocol, protocolsAllowed,
 applyFilters) equals the IPIP-484 reference predicate. -/
-theorem c42_filter_spec (codeOf : String → Nat) (r : Rec) (fa fp : List String) :
-    applyFilters codeOf r fa fp = specApply codeOf r fa fp := applyFilters_eq codeOf r fa fp
+theorem c42_filter_spec (E : Env) (r : Rec) (fa fp : List String) :
+    applyFilters E r fa fp = specApply E r fa fp := applyFilters_eq E r fa fp
 
 /-- Only the SET of filter terms matters (order and repetition do not): the client may sort them. -/
-theorem c42_filter_order (codeOf : String → Nat) (r : Rec) (fa fa' fp fp' : List String)
+theorem c42_filter_order (E : Env) (r : Rec) (fa fa' fp fp' : List String)
     (ha : ∀ x, x ∈ fa ↔ x ∈ fa') (hp : ∀ x, x ∈ fp ↔ x ∈ fp') :
-    applyFilters codeOf r fa fp = applyFilters codeOf r fa' fp' := by
-  rw [applyFilters_eq, applyFilters_eq]; exact specApply_congr codeOf r ha hp
+    applyFilters E r fa fp = applyFilters E r fa' fp' := by
+  rw [applyFilters_eq, applyFilters_eq]; exact specApply_congr E r ha hp
 
 /-- Server output = `take limit (filterMap keep records)`, in order, for the providers and the peers
 pipeline (the JSON and the NDJSON handler build the same iterator; they only pass their own limit). -/
-theorem c42_pipeline (codeOf : String → Nat) (fa fp : List String) (recs : List (Option Rec)) (lim : Int) :
-    serveProviders codeOf fa fp recs lim = specServe codeOf fa fp recs lim ∧
-    servePeers codeOf fa fp recs lim = specServe codeOf fa fp recs lim :=
-  ⟨serveProviders_eq codeOf fa fp recs lim, servePeers_eq codeOf fa fp recs lim⟩
+theorem c42_pipeline (E : Env) (fa fp : List String) (recs : List (Option Rec)) (lim : Int) :
+    serveProviders E fa fp recs lim = specServe E fa fp recs lim ∧
+    servePeers E fa fp recs lim = specServe E fa fp recs lim :=
+  ⟨serveProviders_eq E fa fp recs lim, servePeers_eq E fa fp recs lim⟩
 
 /-- limit ≤ 0 means unlimited; a positive limit caps the response and is reached whenever enough records are kept -/
-theorem c42_limit_zero (codeOf : String → Nat) (fa fp : List String) (recs : List (Option Rec)) (lim : Int) :
-    (lim ≤ 0 → serveProviders codeOf fa fp recs lim = recs.filterMap (keepAt codeOf fa fp)) ∧
-    (lim > 0 → (serveProviders codeOf fa fp recs lim).length =
-      min lim.toNat (recs.filterMap (keepAt codeOf fa fp)).length) := by
+theorem c42_limit_zero (E : Env) (fa fp : List String) (recs : List (Option Rec)) (lim : Int) :
+    (lim ≤ 0 → serveProviders E fa fp recs lim = recs.filterMap (keepAt E fa fp)) ∧
+    (lim > 0 → (serveProviders E fa fp recs lim).length =
+      min lim.toNat (recs.filterMap (keepAt E fa fp)).length) := by
   rw [serveProviders_eq]
   unfold specServe
   constructor
@@ -43,13 +44,13 @@ theorem c42_limit_zero (codeOf : String → Nat) (fa fp : List String) (recs : L
 
 /-- A kept record keeps its identity and protocols; its address list is exactly what the address filter keeps
 (untouched when there is no address filter, or when it has no address and `unknown` is a term). -/
-theorem c42_addrs_filtered (codeOf : String → Nat) (r r' : Rec) (fa fp : List String)
-    (h : applyFilters codeOf r fa fp = some r') :
+theorem c42_addrs_filtered (E : Env) (r r' : Rec) (fa fp : List String)
+    (h : applyFilters E r fa fp = some r') :
     r'.id = r.id ∧ r'.protocols = r.protocols ∧ r'.schema = r.schema ∧
     r'.addrs = (if fa.isEmpty || (r.addrs.isEmpty && fa.contains "unknown") then r.addrs
-                else r.addrs.filter (addrKeep (posCodes codeOf fa) (negCodes codeOf fa))) ∧
+                else r.addrs.filter (addrKeep (posCodes E fa) (negCodes E fa))) ∧
     (r.addrs ≠ [] → fa ≠ [] → r'.addrs ≠ []) := by
-  have hs := applyFilters_schema codeOf r r' fa fp h
+  have hs := applyFilters_schema E r r' fa fp h
   refine ⟨hs.2.1, hs.2.2, hs.1, ?_⟩
   rw [applyFilters_eq] at h
   unfold specApply at h
@@ -60,7 +61,7 @@ theorem c42_addrs_filtered (codeOf : String → Nat) (r r' : Rec) (fa fp : List 
     rw [this]
     exact ⟨by simp, fun hne _ => hne⟩
   · simp only [h0, Bool.false_eq_true, if_false] at h
-    by_cases h1 : (!protoKeep r.protocols fp) = true
+    by_cases h1 : (!protoKeep E r.protocols fp) = true
     · simp [h1] at h
     · simp only [h1, Bool.false_eq_true, if_false] at h
       by_cases h2 : (fa.isEmpty || (r.addrs.isEmpty && fa.contains "unknown")) = true
@@ -68,7 +69,7 @@ theorem c42_addrs_filtered (codeOf : String → Nat) (r r' : Rec) (fa fp : List 
         subst h
         refine ⟨by rw [if_pos h2], fun hne hfa => hne⟩
       · simp only [h2, Bool.false_eq_true, if_false] at h
-        by_cases h3 : (specAddrs codeOf r.addrs fa).isEmpty = true
+        by_cases h3 : (specAddrs E r.addrs fa).isEmpty = true
         · simp [h3] at h
         · simp only [h3, Bool.false_eq_true, if_false, Option.some.injEq] at h
           subst h
@@ -80,15 +81,15 @@ theorem c42_addrs_filtered (codeOf : String → Nat) (r r' : Rec) (fa fp : List 
 
 /-- The client's local filtering (with its lower-cased filter values, i.e. the lists the server parses out of
 the URL) leaves a server response unchanged: filtering is idempotent. -/
-theorem c42_client_idempotent (codeOf : String → Nat) (fa fp : List String) (recs : List (Option Rec)) (lim : Int) :
-    clientFilter codeOf fa fp (serveProviders codeOf fa fp recs lim) = serveProviders codeOf fa fp recs lim ∧
-    clientFilter codeOf fa fp (servePeers codeOf fa fp recs lim) = servePeers codeOf fa fp recs lim := by
+theorem c42_client_idempotent (E : Env) (fa fp : List String) (recs : List (Option Rec)) (lim : Int) :
+    clientFilter E fa fp (serveProviders E fa fp recs lim) = serveProviders E fa fp recs lim ∧
+    clientFilter E fa fp (servePeers E fa fp recs lim) = servePeers E fa fp recs lim := by
   rw [serveProviders_eq, servePeers_eq]
-  have : clientFilter codeOf fa fp (specServe codeOf fa fp recs lim) = specServe codeOf fa fp recs lim := by
+  have : clientFilter E fa fp (specServe E fa fp recs lim) = specServe E fa fp recs lim := by
     apply filterMap_fixed
     intro x hx
-    obtain ⟨r, _, hr⟩ := mem_specServe codeOf fa fp recs lim x hx
-    exact applyRec_idem codeOf fa fp r x hr
+    obtain ⟨r, _, hr⟩ := mem_specServe E fa fp recs lim x hx
+    exact applyRec_idem E fa fp r x hr
   exact ⟨this, this⟩
 
 /-- Before the fix the client filtered locally with its filter values as given: with the address filter
@@ -96,17 +97,111 @@ theorem c42_client_idempotent (codeOf : String → Nat) (fa fp : List String) (r
 theorem c42_unfixed_counterexample :
     let codeOf : String → Nat := fun n => if n == "tcp" then 6 else 0
     let r : Rec := { schema := 0, id := 1, addrs := [{ id := 0, protos := [4, 6] }], protocols := [] }
-    serveProviders codeOf ["TCP".toLower] [] [some r] 0 = [r] ∧
-    clientFilter codeOf ["TCP"] [] [r] = [] ∧
-    clientFilter codeOf (normalizeFilter ["TCP"]) [] [r] = [r] := by
+    serveProviders (asciiEnv codeOf) ["TCP".toLower] [] [some r] 0 = [r] ∧
+    clientFilter (asciiEnv codeOf) ["TCP"] [] [r] = [] ∧
+    clientFilter (asciiEnv codeOf) (normalizeFilter (asciiEnv codeOf) ["TCP"]) [] [r] = [r] := by
   decide +kernel
+
+/-! ## Deepening: content negotiation, per-format limits, the IPNS PUT / GET decisions -/
+
+/-- Content negotiation (`detectResponseType`): no Accept header ⇒ JSON; an unparsable element ⇒ 400; otherwise
+NDJSON iff some element is application/x-ndjson and streaming is enabled, else JSON iff some element is
+application/json or */*, else 400. -/
+theorem c42_detect (dis : Bool) (accepts : List MT) :
+    detectResponseType dis accepts =
+      if accepts.isEmpty then some .json
+      else if accepts.contains .bad then none
+      else if accepts.contains .ndjson && !dis then some .ndjson
+      else if accepts.contains .json || accepts.contains .wildcard then some .json
+      else none := by
+  unfold detectResponseType
+  by_cases he : accepts.isEmpty = true
+  · simp [he]
+  · simp only [he, Bool.false_eq_true, if_false]
+    have key : ∀ (l : List MT) (nd js : Bool), detectResponseType.go dis nd js l =
+        if l.contains .bad then none
+        else if (nd || l.contains .ndjson) && !dis then some .ndjson
+        else if js || l.contains .json || l.contains .wildcard then some .json
+        else none := by
+      intro l
+      induction l with
+      | nil => intro nd js; simp [detectResponseType.go]
+      | cons x r ih =>
+        intro nd js
+        cases x <;> simp [detectResponseType.go, ih] <;> (cases nd <;> cases js <;> cases dis <;> simp)
+    rw [key]; simp
+
+/-- Both endpoints, both formats: a 200 response carries exactly `take limit (filterMap keep records)` where the
+limit is the one configured for the NEGOTIATED media type (recordsLimit for JSON, streamingRecordsLimit for
+NDJSON), the filters being the parsed query parameters; the two formats differ in nothing else. -/
+theorem c42_handler (E : Env) (cfg : SrvCfg) (peers : Bool) (accepts : List MT) (fa fp : String)
+    (recs : List (Option Rec)) :
+    findHandler E cfg peers accepts fa fp recs =
+      match detectResponseType cfg.disableNDJSON accepts with
+      | none => (400, none)
+      | some .ndjson => (200, some (.ndjson, specServe E (parseFilter E fa) (parseFilter E fp) recs cfg.streamingRecordsLimit))
+      | some .json => (200, some (.json, specServe E (parseFilter E fa) (parseFilter E fp) recs cfg.recordsLimit)) := by
+  unfold findHandler
+  cases detectResponseType cfg.disableNDJSON accepts with
+  | none => rfl
+  | some m => cases m <;> cases peers <;> simp [serveProviders_eq, servePeers_eq]
+
+/-- PUT /routing/v1/ipns: a record reaches the router ONLY IF the content type, the CID, the name, the decoding and
+the validation against the name all succeeded; 200 iff additionally the router accepted it. -/
+theorem c42_put_ipns (r : PutReq) :
+    ((putStatus r).2 = true ↔ (r.ctOk ∧ r.cidOk ∧ r.nameOk ∧ r.unmarshalOk ∧ r.valid)) ∧
+    ((putStatus r).1 = 200 ↔ (r.ctOk ∧ r.cidOk ∧ r.nameOk ∧ r.unmarshalOk ∧ r.valid ∧ r.routerOk)) ∧
+    (r.valid = false → (putStatus r).2 = false ∧ (putStatus r).1 ≠ 200) := by
+  unfold putStatus
+  cases r.ctOk <;> cases r.cidOk <;> cases r.nameOk <;> cases r.unmarshalOk <;> cases r.valid <;> cases r.routerOk <;> simp
+
+/-- the facts of a PUT request whose body decodes to the C25 record `r`, validation done by the C25 model -/
+def putReqC25 (C : C25.Crypto) (decode : C25.Bytes → Option C25.Node) (parseTime : C25.Bytes → Option Int) (now : Int)
+    (ctOk routerOk : Bool) (name : Option Nat) (r : C25.Record) : PutReq where
+  ctOk := ctOk
+  cidOk := name.isSome
+  nameOk := name.isSome
+  unmarshalOk := true
+  valid := match name with
+    | some n => (match C25.validateWithName C decode parseTime now r n with | .ok _ => true | .error _ => false)
+    | none => false
+  routerOk := routerOk
+
+/-- The same decision with the C25 model of `ipns.ValidateWithName` plugged in: whatever reaches the router
+carries a V2 signature that verifies under a key whose peer ID is the name of the URL, is within the size limit
+and has not expired (C25's `c25_valid_implies`). -/
+theorem c42_put_ipns_validated (C : C25.Crypto) (hl : C25.InlineLaw C) (decode : C25.Bytes → Option C25.Node)
+    (parseTime : C25.Bytes → Option Int) (now : Int) (ctOk routerOk : Bool) (name : Option Nat) (r : C25.Record)
+    (hput : (putStatus (putReqC25 C decode parseTime now ctOk routerOk name r)).2 = true) :
+    ∃ n pk, name = some n ∧ C.nameOf pk = n ∧
+      C.verify pk (C25.sigPrefix ++ r.pb.data) r.pb.sigV2 = true ∧ r.pb.size ≤ C25.maxRecordSize ∧
+      ∃ eol, C25.validity parseTime r = .ok eol ∧ now ≤ eol := by
+  have := (c42_put_ipns _).1.1 hput
+  obtain ⟨_, _, _, _, hvalid⟩ := this
+  cases name with
+  | none => simp [putReqC25] at hvalid
+  | some n =>
+    simp only [putReqC25] at hvalid
+    cases hv : C25.validateWithName C decode parseTime now r n with
+    | error e => simp [hv] at hvalid
+    | ok u =>
+      obtain ⟨pk, _, h1, h2, h3, _, _, eol, h4, h5⟩ := C25.c25_valid_implies C hl decode parseTime now r n hv
+      exact ⟨n, pk, rfl, h1, h2, h3, eol, h4, h5⟩
+
+/-- GET /routing/v1/ipns: the record bytes are served only for an acceptable Accept header, a parsable CID that is
+a name, and a record the router has; "not found" is a 200 without record (IPIP-513). -/
+theorem c42_get_ipns (acceptOk cidOk nameOk : Bool) (l : Lookup) :
+    ((getStatus acceptOk cidOk nameOk l).2 = true ↔ (acceptOk ∧ cidOk ∧ nameOk ∧ l = .found)) ∧
+    (acceptOk = false → (getStatus acceptOk cidOk nameOk l).1 = 406) := by
+  unfold getStatus
+  cases acceptOk <;> cases cidOk <;> cases nameOk <;> cases l <;> simp
 
 /-! Non-vacuity -/
 example :
     let codeOf : String → Nat := fun n => if n == "tcp" then 6 else if n == "udp" then 273 else if n == "quic-v1" then 461 else 0
     let a0 : Addr := { id := 0, protos := [4, 6] }
     let a1 : Addr := { id := 1, protos := [4, 273, 461] }
-    serveProviders codeOf ["!quic-v1", "tcp", "unknown"] ["Transport-Bitswap".toLower, "unknown"]
+    serveProviders (asciiEnv codeOf) ["!quic-v1", "tcp", "unknown"] ["Transport-Bitswap".toLower, "unknown"]
       [some { schema := 0, id := 1, addrs := [a0, a1], protocols := ["transport-bitswap"] },
        none,
        some { schema := 1, id := 2, addrs := [a1], protocols := ["transport-bitswap"] },
